@@ -84,7 +84,8 @@ class ChunkForMsg(Spec):
         msa = None if self.msa is None else Float(nan=False, ty='float').make('msa', ctx)
         flag = SBool(z3.Bool('flag'))
         ctx.extractors['flag'] = lambda m: smt.z3val_to_py(m.eval(z3.Bool('flag'), model_completion=True))
-        fields = {'_prms': {'MSA': msa}, '_clouds_above_msa_buffer': flag,
+        buf = Float(nan=False, ty='float').make('msa_hit_buffer', ctx)     # any number is a legal buffer (0 and negative values included)
+        fields = {'_prms': {'MSA': msa, 'MSA_HIT_BUFFER': buf}, '_clouds_above_msa_buffer': flag,
                   '_slices': None, '_groups': None, '_layers': None}
         ghost = {}
         if self.computed:
@@ -165,7 +166,8 @@ def _metar_msg_post(result, self, which):
         # NCD / NSC are returned exactly when nothing is reportable
         'C02.code_iff_nothing_reported': Sequent(reveal, Iff(is_code, c == 0)),
         'C02.ncd_only_if_nothing_significant': Sequent(reveal, Forall(0, n, lambda i: Implies(result == 'NCD', Not(sig[i])))),
-        'C02.nsc_only_if_cloud': Implies(result == 'NSC', Or(flag, Exists(0, n, lambda j: And(sig[j], Not(below(j)))))),
+        # (an existential goal stands alone: the premises are local hypotheses of the sequent)
+        'C02.nsc_only_if_cloud': Sequent(reveal + [lift(result) == z3.StringVal('NSC'), Not(flag)], Exists(0, n, lambda j: And(sig[j], Not(below(j))))),
     })
     if c == 0:
         out['C02.nsc_if_cloud_above'] = Forall(0, n, lambda i: Implies(Or(flag, And(sig[i], Not(below(i)))), result == 'NSC'))
@@ -593,16 +595,27 @@ def _cleanup_post(result, self, data):
         # second and higher hits above the limit are removed
         'rows.higher_hits_dropped': Forall(0, n, lambda i: Implies(And(above(i), ty[i] > 1), Not(R.present(i)))),
     }
+    # the high-cloud flag: raised iff the number of hits above the limit exceeds MAX_HITS_OKTA0 -- stated whatever way the code
+    # counts; the lemma instances below only help with the two counting idioms known so far
+    U = smt.fresh('above', _BoolArr)
+    ctx.assume(Forall(0, n, lambda i: U[i] == above(i), name='ua'))
+    ctx.note_cnt(U)
+    goal = flag_t == (_cnt_fn(U, n) > max0)
     masks = ctx.ghost.get('label_masks', [])
-    if len(masks) == 2:
-        A, B = masks
-        U = smt.fresh('above', _BoolArr)
-        ctx.assume(Forall(0, n, lambda i: U[i] == above(i), name='ua'))
-        ctx.note_cnt(U)
+    sums = [m for _, m in ctx.ghost.get('mask_sums', [])]
+    if len(masks) == 2 and not sums:
+        A, B = masks          # len(labels of first / VV hits above) + len(labels of higher hits above)
         out['flag.masks_partition_the_hits_above'] = Forall(0, n, lambda i: And(U[i] == Or(A[i], B[i]), Not(And(A[i], B[i]))))
         # cnt_union (proved lemma): for a disjoint union the counts add up -- premise = the clause above
         out['flag.raised_iff_more_than_MAX_HITS_OKTA0_above'] = Sequent(
-            [LemmaInst('cnt_union', _cnt_fn(U, n) == _cnt_fn(A, n) + _cnt_fn(B, n))], flag_t == (_cnt_fn(U, n) > max0))
+            [LemmaInst('cnt_union', _cnt_fn(U, n) == _cnt_fn(A, n) + _cnt_fn(B, n))], goal)
+    elif len(sums) == 1:
+        M = sums[0]           # (some mask).sum(): the mask must be "above the limit" row by row (then the counts agree: lemma cnt_ext)
+        out['flag.counted_mask_is_the_hits_above'] = Forall(0, n, lambda i: M[i] == U[i])
+        out['flag.raised_iff_more_than_MAX_HITS_OKTA0_above'] = Sequent(
+            [LemmaInst('cnt_ext', _cnt_fn(M, n) == _cnt_fn(U, n))], goal)
+    else:
+        out['flag.raised_iff_more_than_MAX_HITS_OKTA0_above'] = goal
     return out
 
 
